@@ -367,7 +367,10 @@ func (v *gv) oddKind() string {
 
 func runC18(c *lib.Ctx) {
 	r := &c18Run{c: c, impl: newC18Impl()}
-	r.g = &c18Gen{r: c.Rng, avoid: c18Avoids(c)}
+	// lib.NewRng(seed) streams of neighbouring seeds are shifted copies of each other (state =
+	// seed*C + K, advanced by C per draw); the generator is therefore derived from a mixed output
+	// of c.Rng, which decorrelates the seeds.
+	r.g = &c18Gen{r: lib.NewRng(c.Rng.U64() ^ 0xC18C18), avoid: c18Avoids(c)}
 	if c.Replay != "" {
 		r.replay()
 		return
@@ -376,9 +379,11 @@ func runC18(c *lib.Ctx) {
 	text, native, ops, simple = r.sweepCases()
 	nSweep := len(text) + len(native) + len(ops) + len(simple)
 	// composite, seeded
+	r.g.text = true
 	for i := 0; i < c.Scale(300, 25000); i++ {
 		text = append(text, r.randomTextCase())
 	}
+	r.g.text = false
 	for i := 0; i < c.Scale(500, 80000); i++ {
 		native = append(native, &c18Case{Family: "native", Doc: strings.Join(r.g.doc(5).wire(), " "), Via: r.g.r.Intn(6)})
 	}
